@@ -71,6 +71,9 @@ async def open_ws_server_transport(spec: str) -> Transport:
                 f'from {connection.remote_address}'
             )
             self.connection = connection
+            # A previous client may have been cut off in the middle of a packet:
+            # frame the new client's stream from its first byte.
+            self.source.parser.reset()
             # pylint: disable=no-member
             try:
                 async for packet in connection:
